@@ -1,5 +1,5 @@
 (* Dispatch table of the extracted model executable: one command per modelled function. *)
-From FV Require Import Base.Prelude Model.ScriptBlocks Model.MathFuncs gen.MathTable Cpp.IR Cpp.Exec Model.KindModel.
+From FV Require Import Base.Prelude Model.ScriptBlocks Model.MathFuncs gen.MathTable Cpp.IR Cpp.Exec Model.KindModel Model.Arith.
 
 Definition dispatch (cmd : string) (arg : sexp) : sexp :=
   if String.eqb cmd "c15.gen" then ScriptBlocks.run_gen arg
